@@ -10,6 +10,7 @@ func init() {
 	register("C03", checkC03)
 	register("C04", checkC04)
 	register("C07", checkC07)
+	needsHooks["C07"] = true // the structural conformance of the radix layer reads the tree through fox.VerifDump
 }
 
 var routerPatternPool = []string{"/a/{x}", "/a/b", "/a/{y}/b", "/a/*{w}", "/a/b/", "/{x}/b", "/a/b*{w}", "/*{w}/b", "/a", "/a/b/c", "/a/*{w}/c", "/ab"}
@@ -166,8 +167,15 @@ func checkC02(r *Run) {
 
 // C07 - routing depends only on the registered set, not on its history.
 func checkC07(r *Run) {
-	runThemes(r, 7, themeSeqPath, themeSeqHost, themeTxnFanout, themeTxnNested)
-	runMatchD2(r, true, true)
+	if only("themes") {
+		runThemes(r, 7, themeSeqPath, themeSeqHost, themeTxnFanout, themeTxnNested)
+	}
+	if only("matchd2") {
+		runMatchD2(r, true, true)
+	}
+	if only("radix") {
+		runRadix(r)
+	}
 	r.assumption("every edge of the exhaustive state graph is one history into its target set; all must answer the probes as the specification prescribes for that set")
 }
 
